@@ -247,7 +247,7 @@ func checkC10(c *CheckCtx) error {
 func checkC20(c *CheckCtx) error {
 	c.Rule = "histories of calls with mixed outcomes followed by Clean: random real-runner programs in every mode (sequential and parallel subtests), skips included; non-trivial = distinct scenario whose summary has at least two non-zero totals"
 	c.Assumptions = []string{cleanAssumptions, "the summary is parsed after stripping SGR sequences; colours on and off"}
-	if err := framingModel(c); err != nil {
+	if err := c.contractModel(c.thorough()); err != nil {
 		return err
 	}
 	if err := c.randomClean(c.pick(120, 2000), "t", []string{"default", "clean", "update", "ci", "other", "color", "ci+clean"},
@@ -258,6 +258,28 @@ func checkC20(c *CheckCtx) error {
 }
 
 func (c *CheckCtx) summaryHistories() error { return nil }
+
+// contractModel model-checks Contract.tla itself (MC_Contract: one outcome per call, totals add up,
+// a call changes at most what it addresses, CI is read-only).
+func (c *CheckCtx) contractModel(deep bool) error {
+	dir, err := specDir(c.Sc, c.Sc.Next("mc"))
+	if err != nil {
+		return err
+	}
+	cfg := "MC_Contract.cfg"
+	if deep {
+		cfg = "MC_Contract_thorough.cfg"
+	}
+	res, err := runTLC(dir, "MC_Contract.tla", cfg, c.Workers, 40*time.Minute)
+	if err != nil {
+		return err
+	}
+	if res.Violation {
+		return inconclusive("the contract violates %s in the specification itself", res.ViolatedBy)
+	}
+	c.model(cfg, res, true, "P_C20, P_C03, P_C05, P_Writes hold on the contract's own state machine")
+	return nil
+}
 
 // ---------------------------------------------------------------- reproductions of known findings
 
